@@ -1,6 +1,7 @@
 import Rare.Base.GoInt
 import Rare.Spec.C04
 import Rare.Model.C01
+import Rare.Model.C06Gzip
 /-!
 Model of how rare turns its command-line arguments into inputs, reads them, counts failures
 and decides the exit status (property C06).  Mirrors, branch by branch:
@@ -11,8 +12,9 @@ and decides the exit status (property C06).  Mirrors, branch by branch:
 * `pkg/extractor/batchers/batcher.go`     `syncReaderToBatcher` (`OnError` ⇒ `incErrors`)     → `runStream`
 * `cmd/helpers/exitCodes.go`              `DetermineErrorState`, `main.go` `main`             → `exitCode`
 
-`os.Open`/`Read` and `compress/gzip` are ORACLES: their answers are data handed to the model
-(`FileOracle`).  The file system as `GlobExpand` sees it is a parameter here (`FsOracle`: `os.Stat`,
+`os.Open`/`Read` and the DEFLATE part of `compress/gzip` are ORACLES: their answers are data handed to the
+model (`FileOracle`); whether a file IS gzip for `gzip.NewReader` is decided by the model of its header parser
+(`Rare.C06.Gz.readHeader`, `Model/C06Gzip.lean`).  The file system as `GlobExpand` sees it is a parameter here (`FsOracle`: `os.Stat`,
 `filepath.Glob`, `filepath.Walk`); `Rare.C06.treeFs` (`Model/C06Tree.lean`) computes it from an abstract
 directory tree with the Lean model of path resolution and `path/filepath` (`Model/C06Glob.lean`).  The scanner is represented by its C04 specification `splitLines` (C04 proves the
 real scanner meets it for every chunking and fault position, and that `OnError` fires at most once).
@@ -96,8 +98,6 @@ structure FileOracle where
   isDir : Bool
   /-- the bytes of the file -/
   content : Bytes
-  /-- `gzip.NewReader` accepts the header -/
-  gzHeaderOk : Bool
   /-- bytes the failed header probe consumed from the file -/
   gzProbed : Nat
   /-- bytes the gzip reader yields … -/
@@ -106,8 +106,11 @@ structure FileOracle where
   gzFails : Bool
   deriving Repr
 
+/-- `gzip.NewReader` accepts the header: decided by the model of `readHeader` on the file's bytes -/
+def FileOracle.gzHeaderOk (f : FileOracle) : Bool := Gz.headerOk f.content
+
 /-- A missing path. -/
-def FileOracle.missing : FileOracle := ⟨false, false, [], false, 0, [], false⟩
+def FileOracle.missing : FileOracle := ⟨false, false, [], 0, [], false⟩
 
 inductive Outcome
   | ok (data : Bytes)
